@@ -33,12 +33,6 @@ static inline void iora_firelist_emplace_back(iora_firelist *l, uint64_t id, voi
   if (id < IORA_NIDS) { IORA_ASSERT(G_fired_cnt[id] < 255, "fire counter"); G_fired_cnt[id]++; }
 }
 
-/* schedule()/reschedule() under the lock: clock, entry pool and id map are environment stubs */
-size_t G_wheel_locks; int64_t G_clock_floor; TimerEntry *G_alloc_entry; uint64_t G_map_key; TimerEntry *G_map_slot;
-static inline int64_t iora_clock_now(void) { int64_t t = nondet_i64(); IORA_ASSUME(t >= G_clock_floor && t <= ((int64_t)1 << 61)); return t; }   /* steady clock: monotone */
-static inline TimerEntry **iora_idmap_at(iora_idmap *m, uint64_t id) { (void)m; G_map_key = id; return &G_map_slot; }
-#define TimingWheel_allocEntry(self) (G_alloc_entry)
-
 #ifdef IORA_SEARCH
 /* SEARCH build only: every loop body entry is counted; a run that needs more loop-body entries than the budget the harness
  * derives from the number of entries is the concrete witness of a walk that does not terminate */
